@@ -35,7 +35,7 @@ ANCHORS = [
     "acnportal.acnsim.analysis:energy_cost",
     "acnportal.acnsim.analysis:demand_charge",
 ]
-REQUIRED = ["same_instant_in_several_zones", "vector_lookups_of_over_1000_periods", "cost_checks_under_another_tariff_in_the_same_process", "sub_second_instants", "vector_lookups_with_periods_of_days_or_months", "lookups_judged", "vector_lookups", "interface_price_vectors", "cost_checks", "regime:wrapped-season",
+REQUIRED = ["user_subclass_of_the_tariff_overriding_the_per_instant_lookup", "same_instant_in_several_zones", "vector_lookups_of_over_1000_periods", "cost_checks_under_another_tariff_in_the_same_process", "sub_second_instants", "vector_lookups_with_periods_of_days_or_months", "lookups_judged", "vector_lookups", "interface_price_vectors", "cost_checks", "regime:wrapped-season",
             "regime:weekend", "regime:weekday", "regime:leap-day"]
 BUDGET_S = {"quick": 240, "thorough": 3000}
 EXHAUSTIVE = {"quick": "all 14 calendar types x every day x boundary instants x 5 files",
@@ -93,6 +93,33 @@ def _load(name):
     if _CACHE["n:" + name] % 2 == 0:
         from acnportal.signals.tariffs.tou_tariff import TimeOfUseTariff
         return TimeOfUseTariff(name), orc
+    return tar, orc
+
+
+class _Shifted:
+    """Oracle for a user subclass of the tariff class that overrides get_tariff / get_demand_charge to bill in another clock
+    (vlib.userext.LocalClockTariff): every lookup is the plain oracle's answer CLOCK_SHIFT_H hours earlier."""
+
+    def __init__(self, orc, hours):
+        self.orc, self.h = orc, hours
+        self.sched = orc.sched
+
+    def lookup(self, dt):
+        return self.orc.lookup(dt - timedelta(hours=self.h))
+
+    def matches(self, dt):
+        return self.orc.matches(dt - timedelta(hours=self.h))
+
+    def breakpoints(self):
+        return self.orc.breakpoints()
+
+
+def _load_maybe_user(name, rng, obs):
+    tar, orc = _load(name)
+    if rng.random() < 0.2:
+        from vlib.userext import LocalClockTariff, CLOCK_SHIFT_H
+        obs.ev("user_subclass_of_the_tariff_overriding_the_per_instant_lookup")
+        return LocalClockTariff(name), _Shifted(orc, CLOCK_SHIFT_H)
     return tar, orc
 
 
@@ -202,8 +229,8 @@ def _run_calendar(case, obs):
 
 def _run_vector(case, obs):
     name = case["file"]
-    tar, orc = _load(name)
     rng = random.Random(case["seed"])
+    tar, orc = _load_maybe_user(name, rng, obs)
     period = rng.choice([1, 5, 7.5, 15, 60, 7, 13, 1440, 10080, 43200, 44640, 43380, 525600])
     n = rng.choice([1, 2, 24, 96, 288, 600]) if period <= 60 else rng.choice([1, 2, 5, 13, 40])
     if period <= 15 and case["seed"] % 12 == 0:
@@ -269,8 +296,8 @@ def _run_vector(case, obs):
 def _run_sim(case, obs):
     from acnportal import acnsim
     name = case["file"]
-    tar, orc = _load(name)
     rng = random.Random(case["seed"])
+    tar, orc = _load_maybe_user(name, rng, obs)
     d = gen.scenario(rng, sched="scripted", kinds=("EVSE", "FR"), noise_p=0.0, nmax=4, sess_max=5, horizon=15,
                      period=rng.choice([1, 5, 7.5, 15, 60, 60, 1440, 1500, 2880]))
     year = rng.choice(_years())
